@@ -25,6 +25,7 @@ from sa import asdl
 from sa import core
 from sa import fieldtypes
 from sa import pycfg
+from sa import tpl
 
 CFG = 'malt/pyct/cfg.py'
 
@@ -146,6 +147,26 @@ def check(model, rep, tier):
               witness='statements after this construct are attributed to the '
               'wrong enclosing statement or loop')
   rep.unit('methods with bookkeeping', n_methods)
+
+  # section keys: a handler may key a section by its own node or by a key that
+  # is not a statement (another handler keys sections by *its* node)
+  for name, fi in cls.methods.items():
+    prm = fi.params()[0] if fi.params() else None
+    for c in ast.walk(fi.node):
+      if isinstance(c, ast.Call) and isinstance(c.func, ast.Attribute) and \
+          c.func.attr in ('enter_cond_section', 'enter_section',
+                          'enter_loop_section', 'enter_finally_section') and c.args:
+        key = c.args[0]
+        kx = tpl.expand(fi, key, c, depth=3)
+        ok = core.norm(kx) == prm or isinstance(kx, (ast.Tuple, ast.Constant)) or \
+            core.norm(kx) == '%s.handlers[0]' % prm
+        rep.check(ok, 'CFG-PAIR', '%s:section-key(%s)' % (fi.site, c.func.attr),
+                  'a section is keyed by a statement node other than the '
+                  'handler\'s own (%s): the handler of that statement keys its '
+                  'own section by the same node and the builder asserts' %
+                  core.norm(kx), {'key': core.norm(kx)}, line=c.lineno,
+                  witness='try: ... else: if c: ...  (AssertionError in '
+                  'enter_cond_section)', nontrivial=core.norm(kx) != prm)
 
   # ---------------------------------------------------------------- CFG-TRY
   vt = cls.methods.get('visit_Try')
